@@ -617,6 +617,44 @@ func c19ParserErrorDiscipline(c *Ctx, r *Report, clause string) {
 		if tests < 2 {
 			bad = append(bad, fmt.Sprintf("Parse has %d `if !current.Is(Section)… { return error }` tests, expected one after the declarations and one after the rules", tests))
 		}
+		// … and through the recorded error itself: the kind test cannot see an error whose offending position is
+		// directly in front of `%%` or the end of the file (parseRule returns nil, the current token IS Section / EOF).
+		// After the rule loop, Parse must fail whenever an error has been recorded: `if p.err != nil { return nil, … }`
+		// (a return whose error result is not nil) at function level, behind the loop.
+		reported := false
+		afterLoop := false
+		for _, st := range f.Decl.Body.List {
+			if _, isFor := st.(*ast.ForStmt); isFor {
+				afterLoop = true
+				continue
+			}
+			is, ok := st.(*ast.IfStmt)
+			if !ok || !afterLoop || !endsInExit(is.Body) {
+				continue
+			}
+			be, ok := unparen(is.Cond).(*ast.BinaryExpr)
+			if !ok || be.Op != token.NEQ {
+				continue
+			}
+			x, y := unparen(be.X), unparen(be.Y)
+			if id, isNil := x.(*ast.Ident); isNil && id.Name == "nil" {
+				x, y = y, x
+			}
+			if id, isNil := y.(*ast.Ident); !isNil || id.Name != "nil" {
+				continue
+			}
+			if fv := fieldVar(info, x); fv == nil || fv.Name() != "err" {
+				continue
+			}
+			if rt, isR := is.Body.List[len(is.Body.List)-1].(*ast.ReturnStmt); isR && len(rt.Results) == 2 {
+				if id, isNil := unparen(rt.Results[1]).(*ast.Ident); !isNil || id.Name != "nil" {
+					reported = true
+				}
+			}
+		}
+		r.Check(reported, clause, "R7 ERROR-DISCIPLINE", "Parser.Parse/a-recorded-error-is-reported", c.pos(f.Decl.Pos()),
+			"behind the rule loop Parse returns an error whenever one was recorded (`if p.err != nil { return nil, … }`): the position of the mistake does not matter",
+			"Parse decides between success and failure by the kind of the current token only: an error recorded directly in front of `%%` or the end of the file (a `%prec` without its operand as the last thing of the rules) leaves parseRule with nil at a Section / EOF token, and the run ends as a success without the offending rule")
 	} else {
 		bad = append(bad, "Parser.Parse not found")
 	}
